@@ -1,4 +1,5 @@
 import CobraModel.Lemmas.Core
+import CobraModel.Lemmas.Resettable
 /-!
 # C03 — leaving a `with model:` block restores the model completely
 
@@ -39,5 +40,31 @@ theorem good_after_program (body : ProgL) (hok : body.ok) (y : Sys) (g : Good y.
 /-! ### non-vacuity -/
 example : Good demo := demo_good
 example : (run (.block demoBody) ⟨demo, []⟩).1 = ⟨demo, []⟩ := demo_block
+
+/-! ### bound setters that are refused after their own check (`ResetM`, Model/Resettable.lean)
+
+The operations of `Core` either succeed or are rejected before they change anything. The bound setters have a third outcome: the value passes
+the setter's check, is stored, and is then refused by the solver interface (NaN, a number left as a string). `ResetM` models the `resettable`
+wrapper around such a setter; `harness/c03.py` (`resettable_stage`) runs the real setters through the same assignment sequences. -/
+
+/-- **a refused assignment at the end of any sequence of accepted ones is undone**: leaving the context does not raise and the bound and its
+solver variable are what they were at `__enter__` — because the undo is recorded before the setter is called -/
+theorem refused_assignment_is_undone (q0 : Rat) (qs : List Rat) (last : Option ResetM.Val) :
+    (ResetM.exit (ResetM.run ResetM.set (ResetM.init q0) (qs.map .num ++ last.toList))).2 = true ∧
+    (ResetM.exit (ResetM.run ResetM.set (ResetM.init q0) (qs.map .num ++ last.toList))).1.field = .num q0 ∧
+    (ResetM.exit (ResetM.run ResetM.set (ResetM.init q0) (qs.map .num ++ last.toList))).1.solver = q0 :=
+  ResetM.accepted_then_refused_restores q0 qs last
+
+-- non-vacuity: accepted 3, 7, then NaN refused; the block restores 5
+example : (ResetM.exit (ResetM.run ResetM.set (ResetM.init 5) [.num 3, .num 7, .junk 0])).1.field = .num 5 := by decide +kernel
+/-- the same wrapper recording the undo only after the setter returned loses the refused value's undo: the bound is not restored
+(what the seeded change `C03_r6_resettable_records_after_setter` does) -/
+theorem late_recording_does_not_restore :
+    (ResetM.exit (ResetM.run ResetM.setLate (ResetM.init 5) [.junk 0])).1.field ≠ .num 5 := by decide +kernel
+/-- the known finding `refused-bound-then-edit-same-reaction`, in the model of the code as it is: an assignment after a refused one records the
+refused value as its undo; leaving the block then raises and the bound is not restored -/
+theorem assignment_after_refused_one_breaks_exit :
+    (ResetM.exit (ResetM.run ResetM.set (ResetM.init 5) [.junk 0, .num 1])).2 = false ∧
+    (ResetM.exit (ResetM.run ResetM.set (ResetM.init 5) [.junk 0, .num 1])).1.field ≠ .num 5 := by decide +kernel
 
 end C03
